@@ -55,6 +55,8 @@ pub fn dash_path(path: &Path, dash_array: &[f32], mut dash_offset: f32) -> Path 
 
     // adjust our position in the dash array by the dash offset
     while dash_offset > state.remaining_length {
+        #[cfg(feature = "verif")]
+        crate::verif::tick(crate::verif::TickSite::DashOffset);
         dash_offset -= state.remaining_length;
         state.index += 1;
         state.remaining_length = dash_array[state.index % dash_array.len()];
@@ -95,6 +97,8 @@ pub fn dash_path(path: &Path, dash_array: &[f32], mut dash_offset: f32) -> Path 
                     let mut len = line.length();
                     let lv = line.to_vector().normalize();
                     while len > state.remaining_length {
+                        #[cfg(feature = "verif")]
+                        crate::verif::tick(crate::verif::TickSite::DashLine);
                         let seg = start + lv * state.remaining_length;
                         if state.on {
                             if is_first_segment {
@@ -140,6 +144,8 @@ pub fn dash_path(path: &Path, dash_array: &[f32], mut dash_offset: f32) -> Path 
                     let lv = line.to_vector().normalize();
 
                     while len > state.remaining_length {
+                        #[cfg(feature = "verif")]
+                        crate::verif::tick(crate::verif::TickSite::DashClose);
                         let seg = start + lv * state.remaining_length;
                         if state.on {
                             if is_first_segment {
